@@ -141,6 +141,10 @@ func ConvertSdcpbNumberToUint64(mm *sdcpb.Number) (uint64, error) {
 }
 
 func ConvertSdcpbNumberToInt64(mm *sdcpb.Number) (int64, error) {
+	// the lowest int64 (the "min" of a range of an int64 type) has a magnitude one above the highest
+	if mm.Negative && mm.Value == 1<<63 {
+		return math.MinInt64, nil
+	}
 	if mm.Value > math.MaxInt64 {
 		return 0, fmt.Errorf("error converting %d to int64 overflow", mm.Value)
 	}
